@@ -953,8 +953,16 @@ class SupportGenerator(CodeGenerator):
     def _get_templates_by_support_type(self, resource_type: ResourceType) -> typing.Iterable[pathlib.Path]:
         files = []
         target_language = self.language_context.get_target_language()
+        # support templates found in a user-provided support templates folder take the place of built-in ones.
+        user_templates = {}  # type: typing.Dict[str, pathlib.Path]
+        fsloader = getattr(self._dsdl_template_loader, "_fsloader", None)
+        for folder in reversed(fsloader.searchpath if fsloader is not None else []):
+            for user_template in pathlib.Path(str(folder)).glob(f"*{TEMPLATE_SUFFIX}"):
+                user_templates[user_template.name] = user_template
 
         for resource in target_language.get_support_files(resource_type):
+            if resource.suffix == TEMPLATE_SUFFIX and resource.name in user_templates:
+                resource = user_templates[resource.name]
             files.append(resource)
         return files
 
